@@ -15,7 +15,9 @@
   compares the fitted values of `find_sources_in_image(mask=…)` with the filtered unrestricted run.
 -/
 import Aegean.Proofs.C11
-import Aegean.Properties.C02
+import Aegean.Generated.C11
+
+set_option linter.unusedSimpArgs false
 
 namespace Aegean.Properties.C11
 open Aegean.Model.C02 Aegean.Model.C11 Aegean.Spec.C02 Aegean.Proofs.C02 Aegean.Proofs.C11
@@ -98,9 +100,9 @@ theorem restricted_eq_spec (hl : IsLabelling g lab n) (f : Px → Bool) (S : Px 
   constructor
   · rintro ⟨I, hI, hS⟩
     obtain ⟨hU, q, hq, hf⟩ := (mem_restricted_iff hl f I).1 hI
-    exact ⟨(Aegean.Properties.C02.islands_eq_spec hl S).1 ⟨I, hU, hS⟩, q, (hS q).1 hq, hf⟩
+    exact ⟨(islands_eq_spec_core hl S).1 ⟨I, hU, hS⟩, q, (hS q).1 hq, hf⟩
   · rintro ⟨hS, q, hq, hf⟩
-    obtain ⟨I, hI, hp⟩ := (Aegean.Properties.C02.islands_eq_spec hl S).2 hS
+    obtain ⟨I, hI, hp⟩ := (islands_eq_spec_core hl S).2 hS
     exact ⟨I, (mem_restricted_iff hl f I).2 ⟨hI, q, (hp q).2 hq, hf⟩, hp⟩
 
 end theorems
@@ -113,7 +115,7 @@ def lab : Px → Nat := fun p => if g.A p then 1 else 0
 def cert : Cert := { parent := fun p => (p.1, p.2 - 1), depth := fun p => p.2, root := fun _ => (0, 2) }
 def region : Px → Bool := fun p => 4 ≤ p.2
 
-example : IsLabelling g lab 1 := Aegean.Properties.C02.checkLabelling_sound (cert := cert) (by decide +kernel)
+example : IsLabelling g lab 1 := Aegean.Proofs.C02.checkLabelling_sound (cert := cert) (by decide +kernel)
 /-- the island straddles the region edge and is kept … -/
 example : findRestricted g lab 1 region =
     [{ box := ⟨0, 1, 2, 6⟩, pixels := [(0, 2), (0, 3), (0, 4), (0, 5)], frame := ⟨0, 1, 2, 6⟩ }] := by
@@ -123,5 +125,47 @@ example : findRestricted g lab 1 (fun p => 6 ≤ p.2) = [] := by decide +kernel
 /-- the pinned test (crossed offsets, origin 1) probes column 1 only and drops the island -/
 example : pinnedTouches g ⟨0, 1, 2, 6⟩ (fun q => 4 ≤ q.2) = false := by decide +kernel
 end Example
+
+/-! ### Obligations on the region probe regenerated from `find_islands` (translator/targets/C11.py → `Gen.C11`) -/
+
+section regenerated
+open Gen.C11
+
+/-- **probe_is_pixel_centre** — the position handed to `pix2world(…, origin)` for the island pixel at offsets
+    `(r, c)` of a box starting at row `row0`, column `col0` is, as a 0-based FITS position, `(x, y) = (col0 + c,
+    row0 + r)`: the centre of that pixel (no crossed offsets, no row/column swap, origin consistent) -/
+theorem probe_is_pixel_centre (r c row0 col0 : Nat) :
+    (probeX r c row0 col0 : Int) - (probeOrigin r c row0 col0 : Int) = (col0 : Int) + c ∧
+    (probeY r c row0 col0 : Int) - (probeOrigin r c row0 col0 : Int) = (row0 : Int) + r := by
+  constructor <;> simp [probeX, probeY, probeOrigin, probeXHand, probeYHand, probeOriginHand] <;> omega
+
+/-- the probed pixels are the island's own pixels -/
+theorem probe_scope_own (r c row0 col0 : Nat) : probeScope r c row0 col0 = 1 := by
+  simp [probeScope, probeScopeHand]
+
+/-- **regenerated_region_eq** — `find_islands(region=…)` assembled from the regenerated probe (glue
+    `findRestrictedSky`; `sky (x, y)` = "the 0-based FITS position (x, y) is inside the region") is the model
+    `findRestricted` with `inside (row, col) := sky (col, row)` -/
+theorem regenerated_region_eq (sky : Int × Int → Bool) (g : Grid) (lab : Px → Nat) (n : Nat) :
+    findRestrictedSky probeX probeY probeOrigin sky g lab n =
+      findRestricted g lab n (fun p => sky ((p.2 : Int), (p.1 : Int))) :=
+  findRestrictedSky_eq (fun r c a b => (probe_is_pixel_centre r c a b).1)
+    (fun r c a b => (probe_is_pixel_centre r c a b).2) sky g lab n
+
+/-- **restricted_eq_filter_regenerated** — the headline theorem about the assembled regenerated probe -/
+theorem restricted_eq_filter_regenerated {g : Grid} {lab : Px → Nat} {n : Nat} (hl : IsLabelling g lab n)
+    (sky : Int × Int → Bool) :
+    findRestrictedSky probeX probeY probeOrigin sky g lab n =
+      filterSpec g lab n (fun p => sky ((p.2 : Int), (p.1 : Int))) := by
+  rw [regenerated_region_eq]; exact restricted_eq_filter hl _
+
+/-- non-vacuity / negation witness: with crossed offsets and origin 1 (the pinned probe) the glue drops the
+    straddling bar of `Example`, with the regenerated probe it keeps it -/
+example : findRestrictedSky (fun r _ _ col0 => r + col0) (fun _ c row0 _ => c + row0) (fun _ _ _ _ => 1)
+      (fun q => decide (4 ≤ q.1)) Example.g Example.lab 1 = [] ∧
+    (findRestrictedSky probeX probeY probeOrigin (fun q => decide (4 ≤ q.1)) Example.g Example.lab 1).length = 1 := by
+  decide +kernel
+
+end regenerated
 
 end Aegean.Properties.C11
